@@ -353,10 +353,10 @@ func cmdRun(args []string) int {
 		for _, f := range pr.Found {
 			kf := MatchKnown(known, *prop, f)
 			sb := shrinkBudget
-			if kf != nil {
-				sb = shrinkBudget / 4
+			small, tries := f.Choices, 0
+			if kf == nil {
+				small, tries = Shrink(ck, *tier, seed, f.Index, f.Choices, f.Class, sb)
 			}
-			small, tries := Shrink(ck, *tier, seed, f.Index, f.Choices, f.Class, sb)
 			rr, herr := ReplayRun(ck, *tier, seed, f.Index, small, true)
 			if herr != "" || !rr.HasClass(f.Class) {
 				// the original log must reproduce; fall back to it
